@@ -27,7 +27,12 @@ import (
 	"time"
 )
 
-const verifDir = "/verif"
+var verifDir = func() string {
+	if v := os.Getenv("VERIF_DIR"); v != "" {
+		return v
+	}
+	return "/verif"
+}()
 
 type pass struct {
 	Name   string
@@ -88,6 +93,7 @@ var plans = map[string]propPlan{
 	"C18": {"exploration", plain(16)},
 	"C19": {"exploration", plain(16)},
 	"C20": {"exploration", plain(16)},
+	"SELF": {"other", plain(2)},
 }
 
 type violation struct {
@@ -489,12 +495,12 @@ func main() {
 	wall := time.Since(start).Seconds()
 
 	// ---- evidence
-	var exh []string
+	exh := []string{}
 	for e := range exhaustive {
 		exh = append(exh, e)
 	}
 	sort.Strings(exh)
-	var ass []string
+	ass := []string{}
 	for a := range assumptions {
 		ass = append(ass, a)
 	}
@@ -515,11 +521,11 @@ func main() {
 		"passes":               passNames(passes),
 		"child_processes":      len(jobs),
 	}
-	var vlist []map[string]interface{}
+	vlist := []map[string]interface{}{}
 	for _, v := range newVios {
 		vlist = append(vlist, map[string]interface{}{"key": v.Key, "msg": v.Msg, "replay": v.Replay, "count": v.Count})
 	}
-	var klist []map[string]interface{}
+	klist := []map[string]interface{}{}
 	for _, v := range knownHits {
 		klist = append(klist, map[string]interface{}{"key": v.Key, "count": v.Count})
 	}
